@@ -498,9 +498,9 @@ def real_matrix(seed, count, big):
 def real_run(binary, cfg):
     cmd = [binary, "real", "--history", str(cfg["history"]), "--n", str(cfg["n"]), "--mode", str(cfg["mode"]), "--stride", str(cfg["stride"]), "--seed", str(cfg["seed"])]
     try:
-        rc, so, se = run(cmd, timeout=1800)
+        rc, so, se = run(cmd, timeout=600)
     except subprocess.TimeoutExpired:
-        return {"crash": "timeout", "cfg": cfg}
+        return {"crash": "timeout (600 s)", "cfg": cfg}
     if rc != 0:
         return {"crash": "status %s: %s" % (rc, se[-300:]), "cfg": cfg}
     try:
@@ -641,6 +641,7 @@ def check_c16(tier, seed):
 
 C17_TIERS = {"quick": 160, "thorough": 4096}
 MIRI_RATES = ["0.01", "0.1", "0.3", "0.6"]
+MIRI_RUN_TIMEOUT = 240
 
 
 def miri_env(seed, rate):
@@ -660,7 +661,12 @@ def miri_args(cfg, mode="concurrent"):
 
 def miri_run(cfg):
     cmd = ["cargo", "+nightly", "miri", "run", "--offline", "-q", "--manifest-path", os.path.join(SIM, "Cargo.toml"), "-p", "mirisched", "--"] + miri_args(cfg)
-    rc, so, se = run(cmd, env=miri_env(cfg["miri_seed"], cfg["rate"]), cwd=SIM, timeout=1800)
+    try:
+        rc, so, se = run(cmd, env=miri_env(cfg["miri_seed"], cfg["rate"]), cwd=SIM, timeout=MIRI_RUN_TIMEOUT)
+    except subprocess.TimeoutExpired:
+        # a run normally takes about a second; a program that spins forever under Miri (a livelock
+        # Miri's deadlock detection cannot see) is a finding, not a harness error
+        return -999, "", "SIM-HANG: the program did not finish under Miri within %d s" % MIRI_RUN_TIMEOUT
     return rc, so, se
 
 
@@ -765,6 +771,8 @@ def c17_matrix(seed, count, deep=False):
 
 def c17_judge(cfg, rc, so, se, ref, check_stream):
     """Returns (class, detail) or None."""
+    if rc == -999:
+        return ("treapconc/hang/", "Miri (seed %d, preemption rate %s): %s" % (cfg["miri_seed"], cfg["rate"], se))
     if rc != 0:
         if "Undefined Behavior" in se:
             m = re.search(r"error: Undefined Behavior: ([^\n]*)", se)
